@@ -1056,10 +1056,40 @@ func (e *c18Env) lendTwin(q c18Params, B, M *big.Int, P *big.Int, t1, t2 int64, 
 		}
 		return m
 	}
+	// a decoy market under the swapped ids (pool = the position's asset id, asset = the position's pool id) with a high
+	// rate: the position must accrue at its OWN market's lend rate, whatever other markets exist
+	if e.assetID != 2 {
+		if _, found := lk.GetPool(ctx, e.assetID); !found {
+			lk.SetPool(ctx, lendtypes.Pool{PoolID: e.assetID, ModuleName: poolMod, CPoolName: "C18D", AssetData: []*lendtypes.AssetDataPoolMapping{{AssetID: 2, AssetTransitType: 1, SupplyCap: sdk.NewDec(1)}}})
+		}
+		lk.SetAssetRatesParams(ctx, lendtypes.AssetRatesParams{AssetID: 2, UOptimal: c18Dec(q.uopt), Base: sdk.NewDecWithPrec(9, 1), Slope1: sdk.OneDec(), Slope2: sdk.OneDec(), EnableStableBorrow: false,
+			StableBase: z, StableSlope1: z, StableSlope2: z, Ltv: z, LiquidationThreshold: z, LiquidationPenalty: z, LiquidationBonus: z, ReserveFactor: z, CAssetID: e.cAssetID, ELtv: z, ELiquidationThreshold: z, ELiquidationPenalty: z})
+		lk.SetAssetStatsByPoolIDAndAssetID(ctx, lendtypes.PoolAssetLBMapping{PoolID: e.assetID, AssetID: 2, TotalBorrowed: sdk.NewInt(900_000_000), TotalStableBorrowed: sdk.ZeroInt(), TotalLend: sdk.NewInt(1_000_000_000),
+			TotalInterestAccumulated: sdk.NewIntFromUint64(1 << 62), LendApr: z, BorrowApr: z, StableBorrowApr: z, UtilisationRatio: z})
+		e.rec.Count("insitu_lend/decoy_markets_set_up", 1)
+	}
+	ownRate, rateErr := lk.GetLendAPRByAssetIDAndPoolID(ctx, 2, e.assetID)
 	if !calc(1, t1) {
 		return
 	}
 	a1, s1, G1 := total(1)
+	if rateErr == nil && !ownRate.IsNegative() {
+		// upper bound at the position's own lend rate: max(simple, compound) accrual of P over t1, one part in 10^6 and
+		// two units of slack
+		cmp, _ := mon.C18Compound(P, mon.C18Ln1p(c18Rat(ownRate)), t1, c18Year)
+		lin := new(big.Rat).Mul(new(big.Rat).SetInt(P), c18Rat(ownRate))
+		lin.Mul(lin, big.NewRat(t1, c18Year))
+		bound := cmp
+		if lin.Cmp(bound) > 0 {
+			bound = lin
+		}
+		bound = new(big.Rat).Mul(bound, big.NewRat(1_000_001, 1_000_000))
+		bound.Add(bound, big.NewRat(2, 1))
+		e.rec.Count("insitu_lend/law_own_market_rate_bound", 1)
+		if a1.Cmp(bound) > 0 {
+			e.rec.Violate("C18/insitu/MsgCalculateLendRewards/more-than-the-own-markets-lend-rate-accrues", fmt.Sprintf("rewards %s over %d s, the position's own market (lend APR %s) accrues at most %s", s1, t1, ownRate, bound.FloatString(6)), wit("own_lend_apr", ownRate))
+		}
+	}
 	if calc(1, t1) {
 		e.rec.Count("insitu_lend/law_zero_time", 1)
 		if a1b, s1b, _ := total(1); a1b.Cmp(a1) != 0 {
